@@ -377,3 +377,26 @@ def std_compare(io, mo, tol=1e-12, scale=None):
     nums = [abs(float(x)) for x in flat(io) if isinstance(x, (int, float)) and not isinstance(x, bool) and x == x]
     sc = scale if scale is not None else max([1.0] + nums)
     return walk(io, mv, []) or "ok"
+
+
+# ----------------------------------------------------------------------------- array layouts
+LAYOUT = ["c", "fortran", "strided", "c"]
+
+
+def mkarr(values, shape, key=""):
+    """Build the input array for the implementation: the logical (C-order) element sequence `values` in `shape`, stored in a
+    memory layout chosen deterministically from `key` (C-contiguous, Fortran-ordered for >= 2-D, or a strided view) and made
+    read-only.  The property never depends on the layout, so every check exercises all of them."""
+    import zlib
+    import numpy as np
+    a = np.array(values, dtype=float).reshape(shape)
+    kind = LAYOUT[zlib.crc32(str(key).encode()) % len(LAYOUT)]
+    if kind == "fortran" and a.ndim >= 2:
+        a = np.asfortranarray(a)
+    elif kind == "strided":
+        buf = np.full(a.shape[:-1] + (2 * a.shape[-1] + 1,), -12345.678) if a.ndim >= 1 and a.size else None
+        if buf is not None:
+            buf[..., 1::2] = a
+            a = buf[..., 1::2]
+    a.setflags(write=False)
+    return a
